@@ -20,10 +20,14 @@ import (
 const (
 	ruleC10 = "stateful histories over the governance contract (7 genesis peers + 3 candidate nodes, 2 extra owners, 4 authorizers; " +
 		"21 action kinds, ~70% valid-by-construction from the observed state, rest arbitrary arguments/signers; advancing height/time; " +
-		"0-9 warm-up epochs so that executeSplit2 is normally active). Non-trivial: the history contains an epoch change in split2 mode " +
+		"0-9 warm-up epochs so that executeSplit2 is normally active). Public keys are hex strings: ~8% of the valid-by-construction " +
+		"steps (every kind that names a peer) and part of the arbitrary ones pass the key in another spelling of the same bytes " +
+		"(upper-case, one upper-case digit, mixed case), and about a quarter of the registerCandidate steps offer a key that is " +
+		"already in the pool again in such a spelling (preferably a peer others have staked on); the reference model identifies a peer " +
+		"by the decoded key bytes, so per settlement the credits are still bounded by the amount being split whatever the spelling. Non-trivial: the history contains an epoch change in split2 mode " +
 		"that credited somebody while at least one authorizer (not the node owner) held a validated or withdraw-pending position. " +
 		"Distinct: different action/outcome sequence."
-	ruleC11 = "same harness. Non-trivial: the history contains a successful quitNode or blackNode followed later by a successful " +
+	ruleC11 = "same harness (incl. alternative hex spellings of the same key bytes in every call that names a peer). Non-trivial: the history contains a successful quitNode or blackNode followed later by a successful " +
 		"withdraw that paid ONT out of governance. Distinct: different action/outcome sequence. Every successful withdraw is also " +
 		"judged against an independent release model kept only from the arguments of the successful calls (per address and per address/peer pair)."
 	assume1 = "set-up: the ONT owner moves Σ genesis InitPos ONT to the governance address (initConfig only records the genesis stakes), as on every production network"
@@ -45,6 +49,7 @@ func collector(prop string) *harn.Collector {
 	fl("commitDpos:ok", "commitDpos", 0.40)
 	fl("blackNode:ok", "blackNode", 0.20)
 	fl("intent:arbitrary:failed", "", 1.0) // at least one failing arbitrary action per history on average
+	fl("spelling:alt", "", 1.0)            // at least one step with respelt keys per history on average
 	if prop == "C10" {
 		ev.Rule(ruleC10)
 		fl("epoch:split2", "epoch", 0.50)
@@ -53,6 +58,11 @@ func collector(prop string) *harn.Collector {
 		fl("epoch:split2:withdrawPending", "epoch:split2", 0.05)
 		fl("epoch:split2:dapp>0", "epoch:split2", 0.03)
 		fl("withdrawFee:ok:paid>0", "withdrawFee", 0.30)
+		// an in-pool key offered again in another spelling; at all, and of a peer whose authorize records a second
+		// pool entry would share
+		fl("hist:respelt-pool-key", "", 0.25)
+		fl("hist:respelt-pool-key:staked", "", 0.12)
+		fl("hist:respelt-pool-key:then-split2", "", 0.10)
 		fl("hist:nontrivial", "", 0.30)
 	} else {
 		ev.Rule(ruleC11)
@@ -134,6 +144,15 @@ func runHistories(t *testing.T, prop string, prof *profile, steps, quickN, thoro
 		}
 		if h.reblack {
 			ev.Class("hist:reblacklist-with-undrained-penalty")
+		}
+		if h.dupTried {
+			ev.Class("hist:respelt-pool-key")
+		}
+		if h.dupStaked {
+			ev.Class("hist:respelt-pool-key:staked")
+		}
+		if h.dupSplit {
+			ev.Class("hist:respelt-pool-key:then-split2")
 		}
 		ev.Case(nontrivial, prof.name+" "+strings.Join(h.log, " "))
 	})
